@@ -29,6 +29,11 @@ template< size_t N> void use()
    Writer< N, celma::common::WriteCountPolicy>  w2;
    w1.append( data, 4);  w1.flush();  (void) w1.buffered();
    w2.append( data, 4);  w2.flush();
+   // the block type is a template parameter: also instantiate append() for elements wider than one byte (the
+   // length is a number of BYTES for every element type)
+   const unsigned int  wide[ 2] = { 1, 2};
+   w1.append( wide, sizeof( wide));
+   w2.append( wide, sizeof( wide));
 }
 
 void drive()
